@@ -268,7 +268,7 @@ func (in *Interp) runPath(ex *Explorer, fn *ssa.Function, it workItem, cfg *RunC
 			ex.inconcKinds["(infeasible-assume, not counted)"]++
 			ex.mu.Unlock()
 		default:
-			ex.addInconclusive(Inconclusive{Kind: abort.Kind, Msg: abort.Msg, Path: append([]int32(nil), ps.trace...)})
+			ex.addInconclusive(Inconclusive{Kind: abort.Kind, Msg: abort.Msg, Path: append([]int64(nil), ps.trace...)})
 		}
 	}
 }
